@@ -35,7 +35,7 @@ from __future__ import annotations
 
 import itertools
 import types
-from collections.abc import Hashable, Iterable, Iterator, MutableSet, Sequence
+from collections.abc import Collection, Hashable, Iterable, Iterator, MutableSet, Sequence
 from collections.abc import Set as AbstractSet
 from typing import Any, TypeVar, cast, get_args, overload
 
@@ -188,6 +188,9 @@ class _AbstractOrderedSet(AbstractSet[T], Sequence[T]):  # noqa: PLW1641
         Returns:
             True, if this is a subset of other.
         """
+        if not isinstance(other, Collection):
+            # A one-shot iterable would be consumed by the first membership test
+            other = tuple(other)
         try:
             # Fast check for obvious cases
             if len(self) > len(other):  # type: ignore[arg-type]
@@ -231,8 +234,10 @@ class _AbstractOrderedSet(AbstractSet[T], Sequence[T]):  # noqa: PLW1641
             The symmetric difference.
         """
         cls = self.__class__
-        diff1 = cls(self).difference(other)
-        diff2 = cls(other).difference(self)
+        # Materialise first: other may be a one-shot iterable
+        other_set = cls(other)
+        diff1 = cls(self).difference(other_set)
+        diff2 = other_set.difference(self)
         return diff1.union(diff2)
 
 
@@ -298,6 +303,8 @@ class OrderedSet(_AbstractOrderedSet[T], MutableSet[T]):
         Args:
             other: The other set.
         """
+        # Materialise first: other may be a one-shot iterable
+        other = tuple(other)
         items_to_add = [item for item in other if item not in self]
         items_to_remove = cast("set[T]", set(other))
         self._items = {item: None for item in self._items if item not in items_to_remove}
